@@ -113,7 +113,16 @@ func hexOrDash(s string) string {
 }
 
 func streamC18(r *hx.Rng) {
-	indents := []string{"", " ", "\t", "    "}
+	indents := []string{"", " ", "\t", "    ", " \t", "\t  "} // the documented rule: only spaces or tab characters (any mixture)
+	// every output is kept and looked at again after all later calls: the bytes handed out belong to the caller
+	type kept struct {
+		p    jprobe
+		cs   string
+		out  []byte
+		copy []byte
+		m    interface{}
+	}
+	var keep []kept
 	order := 0
 	for _, p := range jprobes() {
 		for _, indent := range indents {
@@ -129,6 +138,7 @@ func streamC18(r *hx.Rng) {
 						fail("JSON adapter output is not well-formed JSON", cs, "valid JSON", fmt.Sprint(err, string(out)), "json-invalid")
 						continue
 					}
+					keep = append(keep, kept{p, cs, out, append([]byte{}, out...), m})
 					// accepted by the adapter and by the owning runtime's decoder, equal to the original
 					d1 := p.empty()
 					if err := csproto.JSONUnmarshaler(d1).UnmarshalJSON(out); err != nil || !ownerEqual(p.owner, d1, m) {
@@ -199,6 +209,14 @@ func streamC18(r *hx.Rng) {
 				res = "ok"
 			}
 			sink.Add("json-unmarshal", fmt.Sprintf("S JU %s unknown=%s,partial=0 unknownkey", jcapsOf(d, false), b2s(allow)), res, true)
+		}
+	}
+	for _, k := range keep {
+		sink.OracleN++
+		d := k.p.empty()
+		if !bytes.Equal(k.out, k.copy) || ownerJSONUnmarshal(k.p.owner, k.out, d) != nil || !ownerEqual(k.p.owner, d, k.m) {
+			fail("JSON returned by an earlier MarshalJSON call changed after later calls (the returned bytes are not the caller's own)", k.cs, string(k.copy), string(k.out), "json-aliased")
+			break
 		}
 	}
 	// missing required fields: tolerated iff requested, on Google V2 only
